@@ -159,7 +159,9 @@ def main():
     cases = []
     # corpus first
     corpus = [((2, 3, 4), None, 0, -1, []), ((2, 3), ["d0", "d1"], -1, -1, []), ((2, 3), None, 1, -2, [("mul2",)]),
-              ((2, 3), None, 0, 0, [("vmap", 0, -1, [("add1",)])])]
+              ((2, 3), None, 0, 0, [("vmap", 0, -1, [("add1",)])]),
+              ((2, 3, 2), None, 0, -1, [("mul2",), ("deepen",)]), ((2, 3, 2), None, 1, -2, [("deepen",)]), ((2, 2), None, 0, -2, [("deepen",)]),
+              ((2, 3), None, 1, 0, [("setconst",)])]
     for c in corpus:
         cases.append(c + (False,))
     # the full (in_dim, out_dim) grid on the identity and on one-op programs
@@ -222,7 +224,8 @@ def main():
         run.corr("vmap(code path)", case, got, G.canon_model(parse_sx(a)))
     loop_answers = ask_chunked(drv, [q for _, q in reqs_loop])
     for (idx, _), la in zip(reqs_loop, loop_answers):
-        run.corr("loop(model spec vs model code path)", meta[idx], G.canon_model(parse_sx(answers[idx])), G.canon_model(parse_sx(la)))
+        nonodes = lambda c: [x for x in c if not (isinstance(x, list) and x and x[0] == "nodes")]
+        run.corr("loop(model spec vs model code path)", meta[idx], nonodes(G.canon_model(parse_sx(answers[idx]))), nonodes(G.canon_model(parse_sx(la))))
     run.sample({"stream": "vmap", "case": meta[len(corpus) + 3], "model": answers[len(corpus) + 3][:300]})
 
 
@@ -326,7 +329,11 @@ def main():
     for _ in range(150 if quick else 1500):
         b = rng.choice([(2,), (2, 3), (3, 2), (2, 3, 2), (2, 1, 3)])
         r = len(b)
-        prog = [(rng.choice(["mul2", "add1", "neg", "clone"]),) for _ in range(rng.randint(1, 3))]
+        prog = [(rng.choice(["mul2", "add1", "neg", "clone"]),) for _ in range(rng.randint(0 if rng.random() < 0.5 else 1, 3))]
+        if rng.random() < 0.5:
+            prog = [("setconst",)] + prog       # an un-batched value written into the (possibly hidden-stack) lazy argument, first
+        if not prog:
+            prog = [("setconst",)]
         lz_cases.append((b, rng.randrange(r), rng.randrange(-r, r), rng.randrange(-r, r), prog))
     reqs, impl, meta = [], [], []
     for (b, sd, i, o, prog) in lz_cases:
@@ -334,7 +341,7 @@ def main():
         case = {"batch": list(b), "stack_dim": sd, "in_dim": i, "out_dim": o, "prog": G.sx_prog(prog)}
         got = attempt(lambda: real_vmap(prog, td, i, o))
         ref = attempt(lambda: real_loop(prog, G.make_td(b, lazy=True, stack_dim=sd), i, o))
-        derived = (i % len(b) == sd) and bool(prog)
+        derived = (i % len(b) == sd) and any(p[0] != "setconst" for p in prog)
         run.case(("vmap_lazy", str(case)), nontrivial=got[0] == "ok")
         run.count("lazy.path", "hidden-stack" if i % len(b) == sd else "member-wise")
         run.count("lazy.outcome", got[0])
